@@ -33,7 +33,10 @@ def run(tier):
                       "subtables are dumped and the specification's Lookup is compared with the rules for a probe grid; the "
                       "harness's reference walker is validated against the specification on the same probes and then judges "
                       "lookups of several times 64 KiB (glyph pairs, class pairs, mark/base with and without devices) that the "
-                      "packer must split and promote to extension lookups.")
+                      "packer must split and promote to extension lookups. Beyond the listed property, Gsub.tla gives the reader semantics "
+                      "of single / multiple / alternate / ligature substitution and the meaning of the builders' rule sets; random rule "
+                      "sets over boundary glyph ids (deltas that wrap or leave 16 bits signed, targets that are prefixes of one another) "
+                      "and ligature lookups of 130..400 KiB are compiled and judged by GsubTrace (differences: GROWTH-FINDING, not a violation).")
     ck.assumptions = ["value records restricted to xAdvance / xPlacement / xAdvance device (single ppem); anchors to format 1 and "
                       "format 3 with an x device", "class sets of one lookup are pairwise equal or disjoint and no class pair is "
                       "listed twice (the builder's documented contract)", "lookups beyond the 4 KiB event cap are judged by the "
@@ -60,6 +63,25 @@ def run(tier):
                                             "--big", 3 if tier == "quick" else 8, "--out", t2], timeout=3000)
         ck.add_harness("record:lookups:%d" % i, res, traces=False)
         validate(ck, wd, "lookups:%d" % i, t2)
+    # beyond the listed property (which names coverage / class definitions, pair positioning and mark-to-base): the GSUB
+    # builders - single (format choice by common delta), multiple, alternate and ligature substitution incl. ligature
+    # sets of several times 64 KiB that the packer splits - against Gsub.tla. The coverage tables inside them fall under the
+    # property; a difference in substitution semantics is reported as GROWTH-FINDING and recorded, not as a violation.
+    t3 = os.path.join(wd, "gsub.ndjson")
+    res = vlib.run_harness("fv-write", ["gsub", "--seed", vlib.seed(), "--n", 120 if tier == "quick" else 1200, "--big", 1 if tier == "quick" else 4, "--out", t3], timeout=3000)
+    growth = [v.get("what", "") for v in res.get("violations", [])]
+    res["violations"] = []
+    ck.add_harness("record:gsub", res, traces=False)
+    ok, info = vlib.validate_trace(wd, "GsubTrace", t3, timeout=3000)
+    ck.cov["parts"]["validate:gsub"] = info
+    ck.cov["states"] += info.get("distinct_states", 0)
+    if ok:
+        ck.cov["traces_validated_against_impl"] += info.get("events", 0)
+    else:
+        growth.append("GsubTrace rejected a compiled GSUB lookup: %s" % info.get("rejected", "")[:800])
+    ck.cov["parts"]["record:gsub"]["growth_findings"] = growth[:20]
+    for gline in growth[:20]:
+        print("GROWTH-FINDING: property=C16 (GSUB builders, beyond the listed property) %s" % gline[:300])
     return ck.finish()
 
 
